@@ -49,6 +49,19 @@ CoreLoader.add_constructor('tag:yaml.org,2002:int', construct_int)
 CoreLoader.add_constructor('tag:yaml.org,2002:float', construct_float)
 
 
+class KeyTextLoader(CoreLoader):
+    """bkl's documented reading of YAML mapping keys: a scalar key is the TEXT of the key as
+    written (`1.10: x` has the key "1.10", `True: x` the key "True"); everything else as CoreLoader."""
+
+    def construct_mapping(self, node, deep=False):
+        if isinstance(node, yaml.MappingNode):
+            self.flatten_mapping(node)
+            for kn, _ in node.value:
+                if isinstance(kn, yaml.ScalarNode) and kn.tag != 'tag:yaml.org,2002:merge':
+                    kn.tag = 'tag:yaml.org,2002:str'
+        return super().construct_mapping(node, deep=deep)
+
+
 def tag(v):
     if v is None:
         return ["n", ""]
@@ -72,7 +85,7 @@ def tag(v):
     return ["t", str(v)]
 
 
-def decode(fmt, text):
+def decode(fmt, text, keys=""):
     if fmt in ("json", "jsonl", "json-pretty"):
         dec = json.JSONDecoder()
         docs, i, n = [], 0, len(text)
@@ -85,7 +98,7 @@ def decode(fmt, text):
             docs.append(v)
         return docs
     if fmt in ("yaml", "yml"):
-        return list(yaml.load_all(text, Loader=CoreLoader))
+        return list(yaml.load_all(text, Loader=KeyTextLoader if keys == "text" else CoreLoader))
     if fmt == "toml":
         parts = re.split(r'(?m)^(?:\+\+\+|---)$', text)
         return [tomllib.loads(p) for p in parts]
@@ -100,7 +113,7 @@ def main():
         try:
             req = json.loads(line)
             if req.get("op") == "decode":
-                docs = decode(req["fmt"], req["text"])
+                docs = decode(req["fmt"], req["text"], req.get("keys", ""))
                 resp = {"ok": True, "docs": [tag(d) for d in docs]}
             else:
                 resp = {"ok": False, "err": "unknown op"}
